@@ -159,7 +159,7 @@ def _gen_when(ch):
     if w == "rel":
         return ["rel", ch.pick("dt", DTS)]
     return ["deadline", ch.choice("dl_idx", 3), ch.pick("dl_delta", [0.0, 0.0, 0.0, -0.001, 0.001, 0.0, -0.01, 0.01,
-                                                                       -0.05])]
+                                                                       -0.05, 0.0005, -0.0005])]
 
 
 def plan(ch, tier):
@@ -366,6 +366,7 @@ class Harness:
         self.allowed = {n: [] for n in self.names}
         self.changed = {n: False for n in self.names}
         self.player_states = {}
+        self.owner = {}
         self.driver_posting = False
         self.boot_enable_t = {}
         self.last_op_t = {n: None for n in self.names}          # instant of the last processed op per block
@@ -529,15 +530,15 @@ class Harness:
         self.schedule_verify()
 
     # -- mode life cycle (observed through C18Mode) ---------------------------------------------------
-    def current_player(self):
-        g = self.sim.machine.game
-        if g is not None and g.player is not None:
-            return g.player.number
-        return None
-
     def mode_hook(self, what, mode):
         now = self.loop.time()
-        pl = self.current_player() if mode.name == "g1" else None
+        # persisted state belongs to the player the mode was started for (Mode.player at load time); a mode
+        # that survives a player change (mode life-cycle issues are C07's subject) still holds that player's state
+        if what == "will_start":
+            pl = mode.player.number if (mode.name == "g1" and mode.player is not None) else None
+            self.owner[mode.name] = pl
+        else:
+            pl = self.owner.get(mode.name)
         self.ctx.log("mode", what, mode.name, pl, t=now)
         self.recent.append((what, mode.name, pl, round(now, 6)))
         for name, kind, scope in BLOCKS:
@@ -571,8 +572,7 @@ class Harness:
         self.verify_all("mode %s starting" % c18_mode)
 
     def game_started_handler(self, **kwargs):
-        self.player_states = {}
-        self.last_player = None
+        self.player_states = {}      # a new game has new players
 
     # -- bookkeeping of what "updated" events may carry ------------------------------------------------
     def note_transition(self, blk, tr):
@@ -789,7 +789,6 @@ class Harness:
 
 
 def execute(ctx, plan):
-    from sim.machine import MpfCrashed     # noqa: F401
     h = Harness(ctx, plan)
     patches, mode_patches = build_patches(plan["cfg"])
     sim = ctx.new_sim("c18", patches=patches, mode_patches=mode_patches, pre_boot=h.pre_boot)
